@@ -209,6 +209,7 @@ Proof.
     destruct (halted s1); simpl; apply K; [exact R1|].
     eapply reg_from_trans; [exact R1|].
     eapply reg_from_trans; [apply same_ctl_reg_from, same_ctl_mdepth|apply same_ctl_reg_from, same_ctl_halted].
+  - simpl. exact R.
 Qed.
 
 Lemma run_regok : forall ops s, Inv s -> regok s -> regok (fst (run ops s)).
